@@ -10,10 +10,13 @@ use crate::hist::{self, Profile};
 use crate::hist_enc::{self, EProfile};
 use std::time::Instant;
 
-pub const RULE: &str = "case = decoder history / encoder history / mem call with source and destination carved out of larger buffers at alignments 0..15 with 32-unit guard bands, destination lengths from the documented minimum upward, arbitrary prior converter state (reached by the history), arbitrary contents; documented preconditions are respected by the generator. Oracle (invariant per call) = read <= src.len(), written <= dst.len(), guard bands intact, source unchanged, InputEmpty only with read == src.len(), encoder read ends on a character boundary, no panic, String/Vec variants keep pointer, capacity and old contents. Out-of-bounds READS are only visible to the AddressSanitizer fuzz targets (fuzz/), which run the same drivers with exact-size heap allocations. Non-trivial = input with a non-ASCII unit or a length that is not a multiple of 16; distinct = distinct case.";
+pub const RULE: &str = "case = decoder history / encoder history / mem call with source and destination carved out of larger buffers at alignments 0..15 with 32-unit guard bands, destination lengths from the documented minimum upward, arbitrary prior converter state (reached by the history), arbitrary contents; documented preconditions are respected by the generator. Oracle (invariant per call) = read <= src.len(), written <= dst.len(), guard bands intact, source unchanged, InputEmpty only with read == src.len(), encoder read ends on a character boundary, no panic, String/Vec variants keep pointer, capacity and old contents. Half of the cases place the source and the slice destination against PROT_NONE guard pages (end of the buffer at the page boundary, or start right after one), so an out-of-bounds READ or write - also through raw pointers or SIMD loads - is a fault in every build, reported with the case as replay; the AddressSanitizer fuzz targets (fuzz/, thorough) add exact-size heap allocations. Non-trivial = input with a non-ASCII unit or a length that is not a multiple of 16; distinct = distinct case.";
 
 pub fn run(ctx: &Ctx) -> i32 {
     let t0 = Instant::now();
+    // half of the cases (odd alignment selector) run with sources and slice destinations fenced by
+    // PROT_NONE guard pages: any access outside them - also by raw-pointer or SIMD loads - faults
+    crate::guard::ENABLED.store(true, std::sync::atomic::Ordering::SeqCst);
     let mut e = encs::multibyte();
     e.extend(encs::single_byte_sample());
     let dc = DecCheck {
@@ -66,6 +69,7 @@ pub fn run(ctx: &Ctx) -> i32 {
 }
 
 pub fn replay(case: &serde_json::Value) -> Option<Vec<fw::Violation>> {
+    crate::guard::ENABLED.store(true, std::sync::atomic::Ordering::SeqCst);
     match case.get("kind").and_then(|k| k.as_str()) {
         Some("mem") => memfam::replay_mem(case, "C06", false),
         Some("enc_history") => ench::replay_with(case, &ench::verdict_c06),
